@@ -623,3 +623,10 @@ func compare(op string, a, b any) Res {
 	}
 	return unsure("unknown comparator")
 }
+
+// DeepEqual is the reference's JSON equality on normalised values; ok=false
+// when a number outside the modelled domain or a non-JSON value is involved.
+func DeepEqual(a, b any) (eq bool, ok bool) { return deepEqual(a, b) }
+
+// Truthy is the reference's truth rule.
+func Truthy(v any) bool { return truthy(v) }
